@@ -150,6 +150,7 @@ let () =
         | Panic -> "panic" in
       let (i, p) = match parse_obs impl with
         | OTx t -> (canon_auto st nreq t, show_clauses (auto_tx_check st r t))
+        | OErr c when c = "insufficient" || c = "overfull" -> ("err|" ^ c, "slack:" ^ sz (auto_slack_class st r))
         | OErr c -> ("err|" ^ c, "-")
         | OPanic -> ("panic", "-") in
       Printf.printf "A\t%s\t%s\t%s\t%s\n" tag i m p
@@ -162,8 +163,11 @@ let () =
         | Panic -> "panic" in
       let (i, p) = match parse_obs impl with
         | OTx t -> (canon_manual nreq t, show_clauses (manual_tx_check r t))
+        | OErr c when c = "insufficient" -> ("err|" ^ c, "slack:" ^ sz (manual_slack_class r))
         | OErr c -> ("err|" ^ c, "-")
         | OPanic -> ("panic", "-") in
-      Printf.printf "M\t%s\t%s\t%s\t%s\n" tag i m p
+      let old = if Array.length Sys.argv > 1 && Sys.argv.(1) = "unfixed" then
+          (match create_raw_sel_unfixed r with Ok (t, _) -> "\t" ^ canon_manual nreq t | Err e -> "\terr|" ^ errname e | Panic -> "\tpanic") else "" in
+      Printf.printf "M\t%s\t%s\t%s\t%s%s\n" tag i m p old
     | "X" :: rest -> Printf.printf "X\t%s\t-\t-\t-\n" (String.concat " " rest)
     | _ -> ())
